@@ -184,6 +184,64 @@ def fam_named_fields(quick):
     return out
 
 
+def fam_multi_flatten(quick):
+    """Several flattened fields in one struct, flattened / inlined / named again one and two levels up."""
+    out = []
+    inners = {
+        "enum+struct": [Field("En", "e", ["#[serde(flatten)]"]), Field("St", "s", ["#[serde(flatten)]"])],
+        "struct+enum": [Field("St", "s", ["#[serde(flatten)]"]), Field("En", "e", ["#[serde(flatten)]"])],
+        "enum+enum": [Field("Ei", "e", ["#[serde(flatten)]"]), Field("Ea", "f", ["#[serde(flatten)]"])],
+        "own+enum+struct": [Field("i32", "own"), Field("En", "e", ["#[serde(flatten)]"]), Field("St", "s", ["#[serde(flatten)]"])],
+        "enum-only": [Field("Ei", "e", ["#[serde(flatten)]"])],
+        "struct+generic": [Field("St", "a", ["#[serde(flatten)]"]), Field("Gp<i32>", "g", ["#[serde(flatten)]"])],
+        "enum+enum+struct": [Field("Ei", "e", ["#[serde(flatten)]"]), Field("Ea", "f", ["#[serde(flatten)]"]), Field("St", "s", ["#[serde(flatten)]"])],
+    }
+    for lbl, fields in inners.items():
+        inner = TypeDef("Inner", "struct", "named", fields)
+        o_flat = TypeDef("OFlat", "struct", "named", [Field("Inner", "inner", ["#[serde(flatten)]"])])
+        o_sib = TypeDef("OSib", "struct", "named", [Field("bool", "x"), Field("Inner", "inner", ["#[serde(flatten)]"])])
+        o_name = TypeDef("OName", "struct", "named", [Field("Inner", "inner")])
+        o_inl = TypeDef("OInl", "struct", "named", [Field("bool", "x"), Field("Inner", "inner", ["#[ts(inline)]"])])
+        oo = TypeDef("OO", "struct", "named", [Field("OFlat", "o", ["#[serde(flatten)]"])])
+        oo2 = TypeDef("OO2", "struct", "named", [Field("String", "y"), Field("OFlat", "o", ["#[serde(flatten)]"]), Field("St", "t", ["#[serde(flatten)]"])])
+        en = TypeDef("EV", "enum", variants=[Variant("A", "named", [Field("Inner", "inner", ["#[serde(flatten)]"])]), Variant("B", "tuple", [Field("Inner")])], attrs=['#[serde(tag = "t")]'])
+        body = []
+        for n in ("Inner", "OFlat", "OSib", "OName", "OInl", "OO", "OO2", "EV"):
+            body += check(n)
+        out.append(Case({"family": "multi-flatten", "inner": lbl}, [inner, o_flat, o_sib, o_name, o_inl, oo, oo2, en], body))
+    return out
+
+
+def fam_field_combos(quick):
+    """Several attributes on the SAME field."""
+    out = []
+    ssi = '#[serde(skip_serializing_if = "Option::is_none", default)]'
+    combos = [
+        ("optional+inline", "Option<St>", ["#[ts(optional, inline)]", ssi]),
+        ("optional-nullable+inline", "Option<St>", ["#[ts(optional = nullable, inline)]", "#[serde(default)]"]),
+        ("optional+inline-enum", "Option<Ei>", ["#[ts(optional, inline)]", ssi]),
+        ("optional+inline-generic", "Option<Gp<St>>", ["#[ts(optional, inline)]", ssi]),
+        ("optional+rename", "Option<i32>", ["#[ts(optional)]", '#[serde(rename = "re-named", skip_serializing_if = "Option::is_none", default)]']),
+        ("optional+as", "Option<i32>", ['#[ts(optional, as = "Option<i32>")]', ssi]),
+        ("inline+rename", "St", ["#[ts(inline)]", '#[serde(rename = "re-named")]']),
+        ("inline+as", "St", ['#[ts(inline, as = "St")]']),
+        ("inline+default", "Vec<St>", ["#[ts(inline)]", "#[serde(default)]"]),
+        ("rename+default", "i32", ['#[serde(rename = "x y", default)]']),
+        ("inline-vec-of-option", "Vec<Option<St>>", ["#[ts(inline)]"]),
+        ("inline-map", "BTreeMap<String, St>", ["#[ts(inline)]"]),
+    ]
+    for lbl, ty, attrs in combos:
+        for cattr, cl in (([], "plain"), (['#[serde(rename_all = "camelCase")]'], "rename_all"), (['#[serde(tag = "type")]'], "tag")):
+            td = TypeDef("X", "struct", "named", [Field("i32", "before_it"), Field(ty, "the_target", list(attrs)), Field("bool", "after_it")], attrs=cattr)
+            out.append(one({"family": "field-combo", "combo": lbl, "container": cl}, td))
+        ev = TypeDef("E", "enum", variants=[Variant("V", "named", [Field(ty, "the_target", list(attrs)), Field("bool", "z")]), Variant("U", "unit")], attrs=['#[serde(tag = "t", content = "c")]'])
+        out.append(one({"family": "field-combo", "combo": lbl, "container": "adjacent-variant"}, ev))
+    for mode, fattr in (("#[ts(optional_fields)]", ssi), ("#[ts(optional_fields = nullable)]", "#[serde(default)]")):
+        td = TypeDef("X", "struct", "named", [Field("Option<St>", "a", ["#[ts(inline)]", fattr]), Field("Option<Vec<St>>", "b", ["#[ts(inline)]", fattr]), Field("St", "c", ["#[ts(inline)]"]), Field("Option<i32>", "d", [fattr, '#[serde(rename = "dee")]'])], attrs=[mode])
+        out.append(one({"family": "field-combo", "combo": "optional_fields+inline", "container": mode}, td))
+    return out
+
+
 def variant_shapes(ty="St"):
     return {
         "unit": lambda n: Variant(n, "unit"),
@@ -322,7 +380,7 @@ def fam_nesting(base_cases, quick):
     return out
 
 
-IDENTS = ["foo_bar", "fooBar", "FooBar", "Foo_Bar", "_x", "x_", "a__b", "a1", "r#type", "r#match", "é_x"]
+IDENTS = ["foo_bar", "fooBar", "FooBar", "Foo_Bar", "_x", "x_", "a__b", "a1", "r#type", "r#match", "é_x", "HTTPServer", "IOError", "BadID", "_leading_under", "Upper_first"]
 
 
 def serde_undefined(rule, ident, position):
@@ -364,6 +422,6 @@ def fam_identifiers(quick):
 
 def build(tier):
     quick = tier == "quick"
-    base = fam_struct_shapes(quick) + fam_named_fields(quick) + fam_enums(quick)
+    base = fam_struct_shapes(quick) + fam_named_fields(quick) + fam_enums(quick) + fam_multi_flatten(quick) + fam_field_combos(quick)
     cases = base + fam_generics(quick) + fam_identifiers(quick) + fam_nesting(base, quick)
     return cases
